@@ -7,14 +7,20 @@
 set -euo pipefail
 V=/verif
 R=${VERIF_REPO:-/repo}
-GEN=$V/.gen
-BIN=$V/.bin
+if [ "$R" = /repo ]; then
+  GEN=$V/.gen; BIN=$V/.bin
+else
+  # an alternative tree (scratch worktree with a candidate fix or a seeded
+  # change): its own generated files and binaries
+  K=$(echo -n "$R" | md5sum | cut -c1-12)
+  GEN=$V/.cache/alt-$K/gen; BIN=$V/.cache/alt-$K/bin
+fi
 export PATH=/opt/veriftools/go1.26.8/bin:$PATH
 export GOFLAGS=-mod=mod GOPROXY=off GOTOOLCHAIN=local GOSUMDB=off
 mkdir -p "$GEN" "$BIN" "$V/.cache"
 
 # serialise concurrent preps (several checks may start together)
-exec 9>"$V/.cache/prep.lock"
+exec 9>"$V/.cache/prep-$(echo -n "$GEN" | md5sum | cut -c1-8).lock"
 flock 9
 
 hash_inputs() {
